@@ -1060,6 +1060,7 @@ init_mem_pagemap(kdump_ctx_t *ctx)
 		return set_error(ctx, KDUMP_ERR_SYSTEM,
 				 "Cannot allocate memory pagemap");
 	val.bitmap->priv = ctx->shared;
+	bmp_bind_format(val.bitmap, ctx->shared);
 	shared_incref_locked(ctx->shared);
 
 	attr_add_override(attr, &ddp->mem_pagemap_override);
@@ -1127,6 +1128,7 @@ open_common(kdump_ctx_t *ctx, void *hdr)
 		goto err_cleanup;
 	}
 	bmp->priv = ctx->shared;
+	bmp_bind_format(bmp, ctx->shared);
 	shared_incref_locked(ctx->shared);
 	set_file_pagemap(ctx, bmp);
 
